@@ -102,6 +102,17 @@ def gen_cases(rng, tier):
         if rng.random() < 0.3:
             spec["store_every"] = True
         yield spec
+    # training scripts that report a value under the name of one of their hyperparameters (appended: the cases above stay the same)
+    k = 0
+    while k < (12 if tier == "quick" else 150):
+        spec = loop.gen_spec(rng, tier)
+        if spec["backend"] != "script":
+            continue
+        spec["cb_store"], spec["csv"] = True, True
+        spec["backend_params"]["style"] = "rich"
+        spec["backend_params"]["report_hp_name"] = True
+        k += 1
+        yield spec
 
 
 def corpus():
